@@ -103,7 +103,7 @@ def axis_term(v):
 def make_where(c, a, b):
     c, a, b = to_term(c), to_term(a), to_term(b)
     # where(isnan(x), v, x) with a number v replaces the missing values of x: x.fillna(v)
-    if fname(c) in ("isnull", "isnan") and len(c.args) == 1 and c.args[0] == b and a.is_number:
+    if fname(c) in ("isnull", "isnan") and len(c.args) == 1 and c.args[0] == b and a.is_number and a.is_finite:
         return op("fillna", b, a)
     return op("where", c, a, b)
 
